@@ -17,3 +17,9 @@ def pb_mono(n, i):
     """rows of the pair enumeration do not overlap: the cells of row a end before row i starts (a < i)"""
     for s in range(0, i):
         pass
+
+
+def pb_closed(n, i):
+    """closed form of the pair count: 2 * pairs_before(i, n) == i * (2 n - i - 1)"""
+    for s in range(0, i):
+        pass
